@@ -1,4 +1,4 @@
-mod util; mod skel; mod parsers; mod corpus; mod gen; mod pegcmp; mod report; mod api; mod c01; mod c16; mod c15;
+mod util; mod skel; mod parsers; mod corpus; mod gen; mod pegcmp; mod report; mod api; mod c01; mod c16; mod c15; mod gen_pp; mod ppcmp;
 
 fn main() {
     util::silence_panics();
@@ -9,6 +9,7 @@ fn main() {
         "c01" => c01::main(&args[1..]),
         "c16" => c16::main(&args[1..]),
         "c15" => c15::main(&args[1..]),
+        "ppcmp" => ppcmp::main(&args[1..]),
         "parse" => { let k = skel::Kinds::load(&args[1]); println!("{}", parsers::run(&args[2], Some(Some(1024)), &args[3], &k, true).line()); }
         x => { eprintln!("unknown command {}", x); std::process::exit(2); }
     }
